@@ -34,7 +34,8 @@ META = {
     "every one of 84 expression positions filled with 13 nested filter/test expressions whose names occur once per template, "
     "every number spelling of <= 3 (4) fragments over ASCII and non-ASCII digits and number punctuation in 8 literal positions, and "
     "47 empty / minimal statements alone, after six kinds of (conditional) extends and inside 16 container bodies (thorough: two "
-    "container levels), and 35 block-like tags with their modifiers x 24 minimal bodies x 8 surroundings, is loaded through Environment.from_string, Environment.parse and Environment.compile(raw=True) "
+    "container levels), 35 block-like tags with their modifiers x 24 minimal bodies x 8 surroundings, and 22 whitespace-controlled tags (27 with line "
+    "statements) after 0-3 blank lines x 1-3 repetitions x 9 trailing faults x 3 leads x 3 separators (quick: 1-2 x 9 x 2 x 2), is loaded through Environment.from_string, Environment.parse and Environment.compile(raw=True) "
     "+ Python compile() under nine configurations (default, ASP-style shared-prefix delimiters, ${ } variables, line "
     "statements + line comments, trim+lstrip, keep_trailing_newline, async, sandboxed, i18n+do+loopcontrols+debug).",
     "note": "Bounds: quick k=4 default / k=3 other configs, keyword alphabet <=2 (framed <=2), d<=1 on the 300 shortest seeds "
@@ -966,10 +967,59 @@ def shard_empty(arg, p):
         p.count("cases_empty_bodies", p.evals)
 
 
+# --------------------------------------------------------------------------
+# (i) left-stripping tags after blank lines, followed by a malformed tag
+#
+# Whitespace control removes newlines that the lexer still has to count; a
+# miscount shows as a TemplateSyntaxError line outside the source.  Every tag
+# kind with "-" on its left (and the right-stripping forms) is put after 0-3
+# blank lines, repeated 1-3 times, and followed by a syntax fault at the end
+# of the source.
+
+STRIP_TAGS = [
+    "{#- c #}", "{#- c -#}", "{# c -#}", "{#- c1\nc2 #}", "{#--#}",
+    "{%- raw %}r{% endraw %}", "{% raw %}r{%- endraw %}", "{%- raw -%}\nr\n{%- endraw -%}", "{% raw %}\n\n{%- endraw %}",
+    "{%- if a %}{% endif %}", "{% if a %}\n{%- endif %}", "{%- if a -%}\n\n{%- endif -%}", "{%- set a = 1 %}", "{%- set a = 1 -%}",
+    "{{- a }}", "{{- a -}}", "{{ a -}}", "{%- for i in a %}\n{{- i -}}\n{%- endfor %}", "{%+ if a %}{% endif %}", "{#+ c #}",
+    "{%- block b %}\n{%- endblock %}", "{%- macro m() -%}\n{%- endmacro -%}",
+]
+STRIP_FAULTS = ["", "{{ 1 + }}", "{% nosuchtag %}", "{{ ) }}", "{{- 1 + }}", "{%- nosuchtag %}", "{#- open", "{% raw %}open", "{{ 'open"]
+
+
+def strip_cases(ci, full=True):
+    """full=False (quick): 1-2 repetitions, 2 leads, 2 separators."""
+    out = []
+    tags = list(STRIP_TAGS)
+    if CONFIGS[ci][0] == "line":
+        tags += ["##- c", "## c", "#- if a\n# endif", "# if a\n#- endif", "##- c1\n##- c2"]
+    for tag in tags:
+        for blanks in range(0, 4):
+            for rep in ((1, 2, 3) if full else (1, 2)):
+                unit = "\n" * blanks + tag
+                for lead in (("x", "", "x  ") if full else ("x", "")):
+                    for fault in STRIP_FAULTS:
+                        for sep in (("\n", "", "\n\n  ") if full else ("\n", "")):
+                            out.append(lead + unit * rep + sep + fault)
+    return out
+
+
+@guarded
+def shard_strip(arg, p):
+    ci, part, nparts, full = arg
+    chk = Checker(p, ci, "W")
+    cases = strip_cases(ci, full)
+    try:
+        for i in range(part, len(cases), nparts):
+            chk.check(translate_source(ci, cases[i]))
+        p.sample({"space": "W", "config": chk.cfg, "source": translate_source(ci, cases[part * 11 % len(cases)])}, cap=1)
+    finally:
+        p.count("cases_strip_then_fault", p.evals)
+
+
 def shard_any(job):
     kind, arg = job
     return {"long": shard_long, "exprs": shard_exprs, "strings": shard_strings, "corpus": shard_corpus,
-            "shapes": shard_shapes, "numbers": shard_numbers, "empty": shard_empty}[kind](arg)
+            "shapes": shard_shapes, "numbers": shard_numbers, "empty": shard_empty, "strip": shard_strip}[kind](arg)
 
 
 # --------------------------------------------------------------------------
@@ -1017,6 +1067,9 @@ def run(ctx: core.Ctx):
     nparts = 4
     jobs = [("long", (ci, part, nparts)) for ci in range(len(CONFIGS)) for part in range(nparts)]
     jobs += [("exprs", (ci, part, 2)) for ci in range(len(CONFIGS)) for part in range(2)]
+    # (i) left-stripping tags followed by a fault
+    jobs += [("strip", (ci, part, 3, not q)) for ci in range(len(CONFIGS)) for part in range(3)]
+    bounds["strip_then_fault_cases_per_config"] = len(strip_cases(0, not q))
     # (g) number spellings, (h) empty bodies
     kn = {ci: ((3 if ci == 0 else 2) if q else (4 if ci == 0 else 3)) for ci in range(len(CONFIGS))}
     jobs += [("numbers", (ci, kn[ci], first)) for ci in range(len(CONFIGS)) for first in range(len(NUM_ALPHABET))]
